@@ -296,3 +296,297 @@ Proof.
     eapply yields_seqr; [tag|].
     eapply yields_seql; [apply yields_str; apply parses_name; [exact Hx|reflexivity]|tag].
 Qed.
+
+(** ** AttValue *)
+Definition av_piece (q : N) : pexpr :=
+  Alt (Map L_model_AttributeValue_from (xc_char_except1 [60;38;q])) (Map L_model_AttributeValue_from (NT nt_reference)).
+
+Lemma body_att_value : body G_xml nt_att_value =
+  Alt (SeqR (Tag [34]) (SeqL (Many0 (av_piece 34)) (Tag [34])))
+      (SeqR (Tag [39]) (SeqL (Many0 (av_piece 39)) (Tag [39]))).
+Proof. reflexivity. Qed.
+
+(** [after_text]: the previous piece was literal text (two adjacent text pieces would re-parse as one) *)
+Fixpoint av_ok (q : N) (after_text : bool) (l : list att_value) : Prop :=
+  match l with
+  | [] => True
+  | AvText s :: l' => after_text = false /\ s <> [] /\ forallb (eval (is_char_except [60;38;q])) s = true /\ av_ok q true l'
+  | AvReference x :: l' => reference_ok x /\ av_ok q false l'
+  end.
+
+Definition d_av_piece (v : att_value) : str :=
+  match v with AvText s => s | AvReference x => d_reference x end.
+Definition d_av (l : list att_value) : str := flat_map d_av_piece l.
+
+Lemma d_reference_head x : exists t, d_reference x = 38 :: t.
+Proof. destruct x as [num [|]|n]; cbn [d_reference]; eauto. Qed.
+
+Lemma d_reference_length x : (0 < length (d_reference x))%nat.
+Proof. destruct (d_reference_head x) as [t ->]. cbn. lia. Qed.
+
+Lemma fails_reference_quote (q : N) (r : str) : q = 34 \/ q = 39 -> F (NT nt_reference) (q :: r).
+Proof.
+  intros Hq. apply fails_nt. rewrite body_reference. apply fails_alt.
+  - apply fails_nt. rewrite body_entity_ref. apply fails_map. apply fails_seqr_l. apply fails_tag.
+    destruct Hq as [->| ->]; reflexivity.
+  - apply fails_nt. rewrite body_char_ref. apply fails_alt; apply fails_map; apply fails_seqr_l; apply fails_tag;
+      destruct Hq as [->| ->]; reflexivity.
+Qed.
+
+Lemma stops_av_next (q : N) (l : list att_value) (r : str) : q = 34 \/ q = 39 -> av_ok q true l ->
+  stops (eval (is_char_except [60;38;q])) (d_av l ++ q :: r).
+Proof.
+  intros Hq. destruct l as [|[x|s] l]; cbn [av_ok d_av flat_map d_av_piece app].
+  - intros _. destruct Hq as [->| ->]; reflexivity.
+  - intros _. destruct (d_reference_head x) as [t ->]. cbn [app]. destruct Hq as [->| ->]; reflexivity.
+  - intros [H _]. discriminate.
+Qed.
+
+Lemma many_av (q : N) (r : str) : q = 34 \/ q = 39 -> forall l b, av_ok q b l ->
+  many_yields (av_piece q) (d_av l ++ q :: r) (map VAttValue l) (q :: r).
+Proof.
+  intros Hq. induction l as [|v l IH]; intros b Hl.
+  - cbn [d_av flat_map app map]. apply my_stop. apply fails_alt.
+    + apply fails_map. apply fails_chars1. destruct Hq as [->| ->]; reflexivity.
+    + apply fails_map. apply fails_reference_quote. exact Hq.
+  - destruct v as [x|s]; cbn [av_ok] in Hl; cbn [d_av flat_map d_av_piece map]; rewrite <- app_assoc;
+      fold (d_av l).
+    + destruct Hl as [Hx Hl]. eapply my_step; [| |apply (IH false Hl)].
+      * apply yields_alt_r.
+        -- apply fails_map. apply fails_chars1. destruct (d_reference_head x) as [t ->]. cbn [app].
+           destruct Hq as [->| ->]; reflexivity.
+        -- apply (yields_map' (VReference x)); [reflexivity|]. apply yields_reference. exact Hx.
+      * rewrite (app_length (d_reference x)). pose proof (d_reference_length x). lia.
+    + destruct Hl as [_ [Hne [Hs Hl]]]. eapply my_step; [| |apply (IH true Hl)].
+      * apply yields_alt_l. apply (yields_map' (VStr s)); [reflexivity|]. apply yields_str.
+        apply parses_chars1; [exact Hne|exact Hs|apply stops_av_next; assumption].
+      * rewrite (app_length s). destruct s; [contradiction|cbn [length]; lia].
+Qed.
+
+(** the value of an attribute-value literal: the list of its pieces *)
+Theorem yields_att_value (q : N) (l : list att_value) (r : str) : q = 34 \/ q = 39 -> av_ok q false l ->
+  yields (NT nt_att_value) (q :: d_av l ++ q :: r) (VList (map VAttValue l)) r.
+Proof.
+  intros Hq Hl. apply yields_nt. rewrite body_att_value.
+  pose proof (yields_many0 _ _ _ _ (many_av q r Hq l false Hl)) as Hm.
+  destruct Hq as [->| ->].
+  - apply yields_alt_l. eapply yields_seqr; [tag|]. eapply yields_seql; [exact Hm|tag].
+  - apply yields_alt_r.
+    + apply fails_seqr_l. apply fails_tag. reflexivity.
+    + eapply yields_seqr; [tag|]. eapply yields_seql; [exact Hm|tag].
+Qed.
+
+(** ** CharData *)
+Lemma body_char_data : body G_xml nt_char_data = TakeUntil (xc_char_except0 [60;38]) [93;93;62].
+Proof. reflexivity. Qed.
+
+Definition text_ok (t : str) : Prop :=
+  forallb (eval (is_char_except [60;38])) t = true /\ find_sub [93;93;62] t = None.
+
+Theorem parses_char_data (t r : str) : text_ok t -> stops (eval (is_char_except [60;38])) r ->
+  P (NT nt_char_data) (t ++ r) (TStr t) r.
+Proof.
+  intros [Ht Hn] Hr. apply parses_nt. rewrite body_char_data.
+  apply parses_take_until_none with (t := TStr t); [|exact Hn].
+  apply parses_chars0; assumption.
+Qed.
+
+(** ** first occurrence of the closing delimiter *)
+Lemma find_sub_none_prefix pat (v : str) : find_sub pat v = None -> prefix pat v = None.
+Proof. destruct v; cbn [find_sub]; destruct (prefix pat _); congruence. Qed.
+
+Lemma find_sub_none_tail pat c (v : str) : find_sub pat (c :: v) = None -> find_sub pat v = None.
+Proof. cbn [find_sub]. destruct (prefix pat (c :: v)); [discriminate|]. destruct (find_sub pat v); congruence. Qed.
+
+Lemma find_sub_cons_none pat c (v : str) i : prefix pat (c :: v) = None -> find_sub pat v = Some i ->
+  find_sub pat (c :: v) = Some (S i).
+Proof. intros H1 H2. cbn [find_sub]. rewrite H1, H2. reflexivity. Qed.
+
+(** "?>" *)
+Lemma find_qgt (d z : str) : find_sub [63;62] d = None -> find_sub [63;62] (d ++ 63 :: 62 :: z) = Some (length d).
+Proof.
+  induction d as [|x d IH]; intros H.
+  - reflexivity.
+  - cbn [app length]. apply find_sub_cons_none; [|apply IH; eapply find_sub_none_tail; exact H].
+    apply find_sub_none_prefix in H. cbn [prefix] in *.
+    destruct (63 =? x); [|reflexivity]. destruct d as [|y d]; [reflexivity|]. cbn [app].
+    destruct (62 =? y); [discriminate H|reflexivity].
+Qed.
+
+(** "]]>" *)
+Lemma find_cdend (d z : str) : find_sub [93;93;62] d = None -> find_sub [93;93;62] (d ++ 93 :: 93 :: 62 :: z) = Some (length d).
+Proof.
+  induction d as [|x d IH]; intros H.
+  - reflexivity.
+  - cbn [app length]. apply find_sub_cons_none; [|apply IH; eapply find_sub_none_tail; exact H].
+    apply find_sub_none_prefix in H. cbn [prefix] in *.
+    destruct (93 =? x); [|reflexivity]. destruct d as [|y d]; [reflexivity|]. cbn [app].
+    destruct (93 =? y); [|reflexivity]. destruct d as [|w d]; [reflexivity|]. cbn [app].
+    destruct (62 =? w); [discriminate H|reflexivity].
+Qed.
+
+Lemma body_multichar0 : body G_xml nt_multichar0 = Chars0 is_char.
+Proof. reflexivity. Qed.
+
+(** [multichar0] runs to the first character that is not a Char (or to the end of the input) *)
+Lemma parses_multichar0_split (s : str) : exists a b : str, s = a ++ b /\ P (NT nt_multichar0) (a ++ b) (TStr a) b.
+Proof.
+  destruct (span_split (eval is_char) s) as [a [b [-> [Ha Hb]]]]. exists a, b. split; [reflexivity|].
+  apply parses_nt. rewrite body_multichar0. apply parses_chars0; assumption.
+Qed.
+
+(** the generic shape: data, then a delimiter made of Chars, cut by take_until *)
+Lemma parses_until (pat d r : str) : forallb (eval is_char) d = true -> forallb (eval is_char) pat = true ->
+  (forall z, find_sub pat (d ++ pat ++ z) = Some (length d)) ->
+  P (TakeUntil (NT nt_multichar0) pat) (d ++ pat ++ r) (TStr d) (pat ++ r).
+Proof.
+  intros Hd Hp Hf. destruct (span_split (eval is_char) r) as [r1 [r2 [-> [H1 H2]]]].
+  replace (pat ++ r1 ++ r2) with ((pat ++ r1) ++ r2) by (rewrite app_assoc; reflexivity).
+  apply parses_take_until_cut with (t := TStr (d ++ pat ++ r1)).
+  - apply parses_nt. rewrite body_multichar0.
+    replace (d ++ (pat ++ r1) ++ r2) with ((d ++ pat ++ r1) ++ r2) by (rewrite <- !app_assoc; reflexivity).
+    apply parses_chars0; [|exact H2]. apply forallb_forall. intros c Hc.
+    rewrite forallb_forall in Hd, Hp, H1. apply in_app_or in Hc. destruct Hc as [Hc|Hc]; [auto|].
+    apply in_app_or in Hc. destruct Hc; auto.
+  - apply Hf.
+Qed.
+
+(** ** CDSect *)
+Lemma body_cdsect : body G_xml nt_cdsect =
+  Map L_model_CData_from (SeqR (Tag [60;33;91;67;68;65;84;65;91]) (SeqL (TakeUntil (NT nt_multichar0) [93;93;62]) (Tag [93;93;62]))).
+Proof. reflexivity. Qed.
+
+Definition cdata_ok (d : str) : Prop := forallb (eval is_char) d = true /\ find_sub [93;93;62] d = None.
+
+Theorem yields_cdsect (d r : str) : cdata_ok d ->
+  yields (NT nt_cdsect) ([60;33;91;67;68;65;84;65;91] ++ d ++ [93;93;62] ++ r) (VCData d) r.
+Proof.
+  intros [Hd Hn]. apply yields_nt. rewrite body_cdsect. apply (yields_map' (VStr d)); [reflexivity|].
+  eapply yields_seqr; [apply parses_tag|]. eapply yields_seql; [|apply (parses_tag G_xml [93;93;62] r)].
+  apply yields_str. apply parses_until; [exact Hd|reflexivity|]. intros z. apply find_cdend. exact Hn.
+Qed.
+
+(** ** PI *)
+Lemma body_pi : body G_xml nt_pi =
+  Map L_model_PI_from (SeqR (Tag [60;63]) (SeqL (Seq (NT nt_pi_target)
+      (Opt (SeqR (Chars1 ws) (TakeUntil (NT nt_multichar0) [63;62])))) (Tag [63;62]))).
+Proof. reflexivity. Qed.
+Lemma body_pi_target : body G_xml nt_pi_target = TakeExcept (NT nt_name) [120;109;108].
+Proof. reflexivity. Qed.
+
+Definition pi_target_ok (t : str) : Prop := name_ok t /\ ci_reject [120;109;108] t = false.
+Definition pi_data_ok (d : str) : Prop :=
+  forallb (eval is_char) d = true /\ find_sub [63;62] d = None /\ stops (eval ws) d.
+Definition pi_ok (p : ppi) : Prop :=
+  pi_target_ok (pi_target p) /\ match pi_value p with Some d => pi_data_ok d | None => True end.
+
+Definition d_ppi (p : ppi) : str :=
+  [60;63] ++ pi_target p ++ match pi_value p with Some d => 32 :: d ++ [63;62] | None => [63;62] end.
+
+Theorem yields_pi (p : ppi) (r : str) : pi_ok p -> yields (NT nt_pi) (d_ppi p ++ r) (VPI p) r.
+Proof.
+  destruct p as [t v]. unfold pi_ok, d_ppi. cbn [pi_target pi_value]. intros [[Ht Hx] Hv].
+  apply yields_nt. rewrite body_pi. rewrite <- !app_assoc.
+  assert (forall r', stops (eval is_name_char) r' -> P (NT nt_pi_target) (t ++ r') (TStr t) r') as Htarget.
+  { intros r' Hr'. apply parses_nt. rewrite body_pi_target. apply parses_take_except with (t := TStr t); [|exact Hx].
+    apply parses_name; assumption. }
+  destruct v as [d|].
+  - destruct Hv as [Hd [Hn Hw]].
+    apply (yields_map' (VPair (VStr t) (VSome (VStr d)))); [reflexivity|].
+    eapply yields_seqr; [apply parses_tag|]. cbn [app]. rewrite <- app_assoc.
+    eapply yields_seql; [|apply (parses_tag G_xml [63;62] r)].
+    eapply yields_seq; [apply yields_str; apply Htarget; reflexivity|].
+    apply yields_opt_some. eapply yields_seqr.
+    + apply (parses_chars1 G_xml ws [32]); [discriminate|reflexivity|].
+      apply stops_app; [reflexivity|intros _; exact Hw].
+    + apply yields_str. apply parses_until; [exact Hd|reflexivity|]. intros z. apply find_qgt. exact Hn.
+  - apply (yields_map' (VPair (VStr t) VNone)); [reflexivity|].
+    eapply yields_seqr; [apply parses_tag|].
+    eapply yields_seql; [|apply (parses_tag G_xml [63;62] r)].
+    eapply yields_seq; [apply yields_str; apply Htarget; reflexivity|].
+    apply yields_opt_none. apply fails_seqr_l. apply fails_chars1. reflexivity.
+Qed.
+
+(** ** Comment *)
+Definition nondash : cpred := is_char_except [45].
+Definition cm_item : pexpr := Seq (Opt (Tag [45])) (xc_char_except1 [45]).
+
+Lemma body_comment : body G_xml nt_comment =
+  Map L_model_Comment_from (SeqR (Tag [60;33;45;45]) (SeqL (Recognize (Many0 cm_item)) (Tag [45;45;62]))).
+Proof. reflexivity. Qed.
+
+(** every character is a Char, and every '-' is followed by a character that is not '-'
+    (so: no "--" inside, and the comment does not end with '-') *)
+Fixpoint comment_okb (c : str) : bool :=
+  match c with
+  | [] => true
+  | x :: c' => (if x =? 45 then match c' with y :: _ => eval nondash y | [] => false end else eval nondash x)
+               && comment_okb c'
+  end.
+Definition comment_ok (c : str) : Prop := comment_okb c = true.
+
+Lemma comment_okb_drop (a b : str) : comment_okb (a ++ b) = true -> comment_okb b = true.
+Proof.
+  induction a as [|x a IH]; cbn [app comment_okb]; [auto|]. intros H. apply andb_prop in H. apply IH. tauto.
+Qed.
+
+Definition cm_tail (r : str) : str := 45 :: 45 :: 62 :: r.
+
+(** a maximal run of non-dash characters at the head of [c1] *)
+Lemma cm_run (c1 r : str) y c2 : c1 = y :: c2 -> eval nondash y = true -> comment_okb c1 = true ->
+  exists a b : str, c1 = a ++ b /\ a <> [] /\ (length b < length c1)%nat /\ comment_okb b = true /\
+                    P (xc_char_except1 [45]) (c1 ++ cm_tail r) (TStr a) (b ++ cm_tail r).
+Proof.
+  intros -> Hy Hok. destruct (span_split (eval nondash) (y :: c2)) as [a [b [E [Ha Hb]]]].
+  assert (a <> []) as Hne.
+  { intros ->. cbn [app] in E. subst b. cbn [stops] in Hb. congruence. }
+  exists a, b. rewrite E in *. repeat split; try assumption.
+  - rewrite app_length. destruct a; [contradiction|cbn [length]; lia].
+  - eapply comment_okb_drop. exact Hok.
+  - rewrite <- app_assoc. apply parses_chars1; [exact Hne|exact Ha|].
+    apply stops_app; [reflexivity|intros _; exact Hb].
+Qed.
+
+Lemma many_comment (r : str) : forall n (c : str), (length c <= n)%nat -> comment_okb c = true ->
+  exists ts, many_parses G_xml cm_item (c ++ cm_tail r) ts (cm_tail r).
+Proof.
+  induction n as [|n IH]; intros c Hlen Hok.
+  - destruct c; [|cbn in Hlen; lia]. exists []. apply mp_stop.
+    eapply fails_seq_r; [apply parses_opt_some; apply parses_tag_lit; reflexivity|].
+    apply fails_chars1. reflexivity.
+  - destruct c as [|x c'].
+    + exists []. apply mp_stop.
+      eapply fails_seq_r; [apply parses_opt_some; apply parses_tag_lit; reflexivity|].
+      apply fails_chars1. reflexivity.
+    + cbn [comment_okb] in Hok. apply andb_prop in Hok. destruct Hok as [Hx Hok'].
+      destruct (N.eqb_spec x 45) as [->|Hne].
+      * (* '-' then a run *)
+        destruct c' as [|y c'']; [discriminate|].
+        destruct (cm_run (y :: c'') r y c'' eq_refl Hx Hok') as [a [b [E [Ha [Hl [Hb Hp]]]]]].
+        destruct (IH b) as [ts Hts]; [cbn [length] in *; lia|exact Hb|].
+        exists (TPair (TSome (TStr [45])) (TStr a) :: ts).
+        eapply mp_step; [| |exact Hts].
+        -- cbn [app]. eapply parses_seq; [apply parses_opt_some; apply parses_tag_lit; reflexivity|exact Hp].
+        -- rewrite !app_length. cbn [length] in *. lia.
+      * (* a run *)
+        assert (comment_okb (x :: c') = true) as Hall.
+        { cbn [comment_okb]. destruct (N.eqb_spec x 45); [contradiction|]. rewrite Hx, Hok'. reflexivity. }
+        pose proof Hx as Hx'.
+        destruct (cm_run (x :: c') r x c' eq_refl Hx' Hall) as [a [b [E [Ha [Hl [Hb Hp]]]]]].
+        destruct (IH b) as [ts Hts]; [cbn [length] in *; lia|exact Hb|].
+        exists (TPair TNone (TStr a) :: ts).
+        eapply mp_step; [| |exact Hts].
+        -- eapply parses_seq; [|exact Hp]. apply parses_opt_none. apply fails_tag. cbn [app prefix].
+           destruct (N.eqb_spec 45 x); [congruence|reflexivity].
+        -- rewrite !app_length. cbn [length] in *. lia.
+Qed.
+
+Theorem yields_comment (c r : str) : comment_ok c ->
+  yields (NT nt_comment) ([60;33;45;45] ++ c ++ [45;45;62] ++ r) (VComment c) r.
+Proof.
+  intros Hc. apply yields_nt. rewrite body_comment. apply (yields_map' (VStr c)); [reflexivity|].
+  eapply yields_seqr; [apply parses_tag|].
+  destruct (many_comment r (length c) c (le_n _) Hc) as [ts Hts].
+  eapply yields_seql; [|apply (parses_tag G_xml [45;45;62] r)].
+  apply yields_str. apply parses_recognize with (t := TList ts). apply parses_many0. exact Hts.
+Qed.
